@@ -271,10 +271,17 @@ pub fn handshake(data: &[u8]) {
         let _ = h.generate_outbound_p0_and_p1();
     }
     let mut received = 0usize;
+    let mut errored = false;
     for piece in p.pieces(stream) {
         received += piece.len();
         match h.process_bytes(piece) {
+            Err(_) => errored = true, // keep feeding (robustness), but the invariants below no longer apply
             Ok(rml_rtmp::handshake::HandshakeProcessResult::Completed { remaining_bytes, .. }) => {
+                if errored {
+                    // an earlier error (e.g. a bad version byte, which is consumed) shifts what the
+                    // handshake takes for the packets; a caller would have given up at the error
+                    break;
+                }
                 // C05 invariants that hold for arbitrary input as well
                 assert!(received >= 3073, "C05 completion after only {} bytes", received);
                 assert!(remaining_bytes.len() <= received - 3073, "C05 remaining_bytes longer than what followed the handshake");
